@@ -62,3 +62,13 @@ Definition m_strategy_n64_v0 (data : list Z) (w : Z) (fuel : Z) : list Z :=
   end.
 
 Definition chks (model observed : list Z) : bool := zlist_eqb model observed.
+
+(* for grids of more than a few thousand edges the observed edge list is not written into the
+   generated file (coqc spends minutes parsing a 10^5-element literal); the model's edges are
+   compared through a digest instead: count, first, last, plain sum and position-weighted sum *)
+Definition wsum (l : list Z) : Z :=
+  snd (fold_left (fun st e => (fst st + 1, snd st + fst st * e)) l (1, 0)).
+Definition digest (l : list Z) : list Z :=
+  [nz (length l); hd 0 l; last l 0; fold_left Z.add l 0; wsum l].
+Definition chksd (model observed_digest : list Z) : bool :=
+  zlist_eqb (firstn 4 model ++ digest (skipn 4 model)) observed_digest.
